@@ -1,5 +1,5 @@
 #!/usr/bin/env python3
-"""Self-test of the C11 check (not a registered command): seeds ten bugs into scratch copies of the five
+"""Self-test of the C11 check (not a registered command): seeds twelve bugs into scratch copies of the five
 synchronisation sources and runs the quick check on each.  Every mutant must be reported with a concrete failing
 input by the independent reference (impl-vs-reference), otherwise the oracle has a hole.
 
@@ -35,6 +35,10 @@ MUTANTS = {
     "sem-eintr-returns-false": ("src/Semaphore.cpp", "      if(errno == EINTR)\n        continue;", "      "),
     "mutex-not-recursive": ("src/Mutex.cpp", "PTHREAD_MUTEX_RECURSIVE", "PTHREAD_MUTEX_NORMAL"),
     "thread-join-truncates-result": ("src/Thread.cpp", "  return (uint)(intptr_t)retval;", "  return (uint)(intptr_t)retval & 0x7fffffff;"),
+    "thread-start-ignores-create-failure": ("src/Thread.cpp",
+        "  if(pthread_create(&thread, 0, (void* (*) (void *)) proc, param) != 0)\n    return false;",
+        "  if(pthread_create(&thread, 0, (void* (*) (void *)) proc, param) != 0)\n    return true;"),
+    "thread-dtor-does-not-join": ("src/Thread.cpp", "  if(thread)\n    join();", "  thread = 0;"),
     "monitor-set-does-not-store-flag": ("src/Monitor.cpp", "  signaled = true;\n", "\n"),
 }
 
